@@ -304,6 +304,31 @@ fn layer_b_case(ty: &str, seq: &[u8]) -> (Vec<Failure>, bool) {
             ));
         }
     }
+    // MIN / MAX / PERCENTILE use the same total order: the result must not depend on the arrival order of the values,
+    // PERCENTILE(0.0) must equal MIN and PERCENTILE(1.0) must equal MAX (reference equality: -0.0 = 0.0, NaN = NaN)
+    if vals.len() >= 2 && ncls >= 1 {
+        let st = sut::parse("SELECT MIN(a), MAX(a), PERCENTILE(a, 0.0), PERCENTILE(a, 1.0) FROM t").unwrap();
+        let mut results: Vec<Vec<RVal>> = Vec::new();
+        for perm in permutations(lines.len()) {
+            let pl: Vec<&str> = perm.iter().map(|i| lrefs[*i]).collect();
+            if let Outcome::Ok(t) = sut::run_batch(&tables, &st, &pl) {
+                if let Some(r) = t.rows.get(0) {
+                    results.push(r.clone());
+                }
+            }
+        }
+        let consistent = results.len() == permutations(lines.len()).len() && results.iter().all(|r| crate::refmodel::tuple_eq(r, &results[0])) && results.iter().all(|r| crate::refmodel::ref_eq(&r[0], &r[2]) && crate::refmodel::ref_eq(&r[1], &r[3]));
+        if !consistent {
+            out.push(fail(
+                format!("consumer:min-max-percentile-order:{}:{}", ty, kinds.join(",")),
+                format!("MIN / MAX / PERCENTILE over {:?}: results differ between arrival orders or PERCENTILE(0/1) != MIN/MAX: {:?}", vals, results),
+                json!({"layer": "B", "type": ty, "seq": seq, "tokens": vals, "statement": "min-max-percentile"}),
+                json!("one result for every arrival order"),
+                json!(format!("{:?}", results)),
+                seq.len() as u64 * 1000 + 7,
+            ));
+        }
+    }
     // array_unique over one row holding the (first three) values in a, b, c
     if vals.len() == 3 && !has_null {
         let line = format!("k {} {} {}", vals[0], vals[1], vals[2]);
